@@ -11,6 +11,7 @@
 #include <fstream>
 #include <filesystem>
 #include <unistd.h>
+#include <algorithm>
 
 using namespace sqf::runtime;
 
@@ -245,6 +246,31 @@ namespace sim
         else if (op == "mkdir") std::filesystem::create_directories(path, ec);
         else if (op == "rm") std::filesystem::remove_all(path, ec);
         else if (op == "chdir") { if (chdir(path.c_str()) != 0) ec = std::make_error_code(std::errc::no_such_file_or_directory); }
+        else if (op == "snapshot")
+        {
+            // listing of a directory tree with size and a content hash per file (FNV-1a 64)
+            json items = json::array();
+            std::vector<std::string> names;
+            if (std::filesystem::exists(path, ec))
+            {
+                for (auto it = std::filesystem::recursive_directory_iterator(path, ec); !ec && it != std::filesystem::recursive_directory_iterator(); it.increment(ec))
+                {
+                    names.push_back(it->path().string());
+                }
+            }
+            std::sort(names.begin(), names.end());
+            for (auto& n : names)
+            {
+                std::error_code e2;
+                if (std::filesystem::is_directory(n, e2)) { items.push_back({ n.substr(path.size()), "dir", 0 }); continue; }
+                std::ifstream f(n, std::ios::binary);
+                uint64_t hsh = 1469598103934665603ULL; uint64_t len = 0; char buf[4096];
+                while (f) { f.read(buf, sizeof(buf)); auto k = f.gcount(); for (std::streamsize i = 0; i < k; i++) { hsh ^= (unsigned char)buf[i]; hsh *= 1099511628211ULL; } len += (uint64_t)k; }
+                items.push_back({ n.substr(path.size()), std::to_string(hsh), len });
+            }
+            g->ev({ "fs_snapshot", path, items });
+            return true;
+        }
         g->ev({ "fs", op, path, ec ? 1 : 0 });
         return true;
     }
